@@ -13,9 +13,11 @@ use std::str::FromStr;
 
 /// Debian order, hard-coded as the reference (independent of the debversion crate).
 /// (the first nine form the quick pool: it holds an explicit zero epoch and two non-zero epochs)
-pub const POOL: [&str; 12] = ["0.9", "1.0~rc1", "1.0", "1.0-1", "1.0+dfsg-1", "0:1.0", "1.1", "1:0.5", "2:0~a", "1.0-1+b1", "1.0-1.1", "0:1.0-1"];
+pub const POOL: [&str; 16] = ["0.9", "1.0~rc1", "1.0", "1.0-1", "1.0+dfsg-1", "0:1.0", "1.1", "1:0.5", "2:0~a", "1.9", "1.10", "1.0-1+b1", "1.0-1.1", "0:1.0-1", "1.0a", "1.0-0"];
 /// Debian rank of each pool entry: an explicit zero epoch ("0:1.0") is the same version as "1.0"
-pub const RANK: [u32; 12] = [0, 1, 2, 3, 6, 2, 7, 8, 9, 4, 5, 3];
+/// ("1.9" < "1.10": components compare as numbers; "1.0a" < "1.0+dfsg": letters sort before '+'; "1.0-0" is "1.0": a
+/// missing revision is revision 0)
+pub const RANK: [u32; 16] = [0, 10, 20, 30, 60, 20, 70, 80, 90, 72, 74, 40, 50, 30, 55, 20];
 pub const OPS12: [&str; 6] = ["", "<<", "<=", "=", ">=", ">>"];
 
 #[derive(Clone, Serialize, Deserialize, PartialEq, Debug)]
@@ -35,7 +37,7 @@ pub enum C12Case {
 pub struct C12;
 
 fn pool(t: Tier) -> usize {
-    t.pick(9, POOL.len())
+    t.pick(11, POOL.len())
 }
 
 fn reference_cell(op: usize, req: usize, inst: Option<usize>) -> bool {
@@ -162,6 +164,34 @@ fn check_cell(op: usize, req: usize, inst: usize) -> Vec<Viol> {
         let got = lrels.satisfied_by(closure);
         if got != want {
             out.push(viol("lossy-relations", ctx(&format!("lossy Relations::satisfied_by(closure) on the field {}", how), got)));
+        }
+    }
+    // the same relation written with the other parts a relation may carry, and in other layouts: the evaluators look the
+    // package up by its bare name and ignore the rest
+    let v = if op == 0 { String::new() } else { format!(" ({} {})", OPS12[op], POOL[req]) };
+    let tight = if op == 0 { String::new() } else { format!("({}{})", OPS12[op], POOL[req]) };
+    for decorated in [format!("pkg:any{}", v), format!("pkg{} [amd64] <!nocheck>", v), format!("pkg{}", tight), format!("pkg\n{}", v), format!("${{misc:Depends}}, pkg{}", v), format!("pkg{}, ${{shlibs:Depends}}", v)] {
+        let subst = decorated.contains('$');
+        let (llr, errs) = ll::Relations::parse_relaxed(&decorated, subst);
+        if errs.is_empty() {
+            let got = llr.satisfied_by(closure);
+            if got != want {
+                out.push(viol("lossless-relations", format!("{:?} with pkg installed at {:?}: lossless says {}, Debian semantics say {}", decorated, POOL.get(inst), got, want)));
+            }
+        } else {
+            out.push(viol("harness", format!("{:?} does not parse: {:?}", decorated, errs)));
+        }
+        // (the lossy reader takes substitution variables and a line break inside a relation for errors: C10's notes)
+        if !subst && !decorated.contains('\n') {
+            match ly::Relations::from_str(&decorated) {
+                Ok(r) => {
+                    let got = r.satisfied_by(closure);
+                    if got != want {
+                        out.push(viol("lossy-relations", format!("{:?} with pkg installed at {:?}: lossy says {}, Debian semantics say {}", decorated, POOL.get(inst), got, want)));
+                    }
+                }
+                Err(e) => out.push(viol("harness", format!("{:?} does not parse (lossy): {}", decorated, e))),
+            }
         }
     }
     let lrels = ly::Relations::from_str(&text).unwrap();
